@@ -188,6 +188,9 @@ class PlainModel(object):
     def note(self, *a, **k):
         self.seen.append(self.name)
 
+    def ok(self, *a, **k):
+        return getattr(self, 'allow', True)
+
     def __repr__(self):
         return '<PlainModel %s>' % self.name
 
@@ -356,6 +359,26 @@ def lifecycle_case(clsname, queued, rng):
         return out
     if order != [m.name for m in mach.models]:
         bad('dispatch-not-each-once-in-order', 'C10.dispatch', got=order, expected=[m.name for m in mach.models])
+    # a dispatch in which some models decline (condition False): every registered model is still offered the event
+    # exactly once, in order, and the result is the conjunction
+    if len(mach.models) >= 2:
+        mach.add_transition('maybe', '*', '=', conditions='ok')
+        regs = list(mach.models)
+        for i, m in enumerate(regs):
+            m.allow = (i % 2 == 1) if rng.random() < 0.7 else rng.random() < 0.5
+        order[:] = []
+        k, r = call(mach, mach.dispatch, 'maybe')
+        want = [m.name for m in regs if m.allow]
+        if k != 'ok':
+            bad('dispatch-%s' % k, 'C10.dispatch', err=repr(r)[:120])
+            return out
+        # (a queued machine answers True for every accepted trigger)
+        if order != want or bool(r) != (True if queued else all(m.allow for m in regs)):
+            bad('dispatch-not-each-once-in-order', 'C10.dispatch', got=list(order), expected=want, result=repr(r),
+                declining=[m.name for m in regs if not m.allow])
+        for m in regs:
+            m.allow = True
+        regs = m = None         # (must not keep the models alive: collectability is checked below)
     # the machine (with its models) may go through pickle first: the restored machine must not keep its models alive
     # in left-over tables either
     if rng.random() < 0.3 and not any('<locals>' in type(m).__qualname__ for m in models):
